@@ -44,13 +44,28 @@ func (g *Grammar) ID(name string) int {
 	return -1
 }
 
-type Set uint64
+// Set is a set of symbol numbers below 256.
+type Set [4]uint64
 
-func (s Set) Has(i int) bool { return s&(1<<uint(i)) != 0 }
-func (s *Set) Add(i int)     { *s |= 1 << uint(i) }
+func (s Set) Has(i int) bool { return i >= 0 && i < 256 && s[i>>6]&(1<<uint(i&63)) != 0 }
+func (s *Set) Add(i int)     { s[i>>6] |= 1 << uint(i&63) }
+func (s Set) Or(t Set) Set {
+	for i := range s {
+		s[i] |= t[i]
+	}
+	return s
+}
+func (s Set) AndNot(t Set) Set {
+	for i := range s {
+		s[i] &^= t[i]
+	}
+	return s
+}
+func (s Set) IsZero() bool { return s == Set{} }
+func (s Set) Hex() string  { return fmt.Sprintf("%x.%x.%x.%x", s[0], s[1], s[2], s[3]) }
 func (s Set) Members() []int {
 	var m []int
-	for i := 0; i < 64; i++ {
+	for i := 0; i < 256; i++ {
 		if s.Has(i) {
 			m = append(m, i)
 		}
@@ -155,7 +170,7 @@ func FromSpec(s *gram.Spec) *Grammar {
 		}
 		g.Rules = append(g.Rules, rr)
 	}
-	if len(g.Names)+1 > 62 {
+	if len(g.Names)+1 > 254 {
 		panic("ref: too many symbols for the bitset representation")
 	}
 	return g
@@ -256,7 +271,7 @@ func (g *Grammar) First() []Set {
 		for _, r := range g.Rules {
 			old := f[r.L]
 			for _, x := range r.R {
-				f[r.L] |= f[x]
+				f[r.L] = f[r.L].Or(f[x])
 				if !nullable[x] {
 					break
 				}
@@ -390,12 +405,12 @@ type lr1State struct {
 func (g *Grammar) firstOfSeq(first []Set, nullable []bool, seq []int, la Set) Set {
 	var s Set
 	for _, x := range seq {
-		s |= first[x]
+		s = s.Or(first[x])
 		if !nullable[x] {
 			return s
 		}
 	}
-	return s | la
+	return s.Or(la)
 }
 
 func (g *Grammar) closure1(first []Set, nullable []bool, st map[Item]Set) {
@@ -414,8 +429,8 @@ func (g *Grammar) closure1(first []Set, nullable []bool, st map[Item]Set) {
 			for ri, rr := range g.Rules {
 				if rr.L == x {
 					n := Item{ri, 0}
-					if st[n]|f != st[n] || !hasKey(st, n) {
-						st[n] |= f
+					if st[n].Or(f) != st[n] || !hasKey(st, n) {
+						st[n] = st[n].Or(f)
 						ch = true
 					}
 				}
@@ -439,7 +454,7 @@ func lr1Key(st map[Item]Set) string {
 	})
 	var b strings.Builder
 	for _, it := range items {
-		fmt.Fprintf(&b, "%d.%d:%x,", it.Rule, it.Dot, uint64(st[it]))
+		fmt.Fprintf(&b, "%d.%d:%s,", it.Rule, it.Dot, st[it].Hex())
 	}
 	return b.String()
 }
@@ -477,7 +492,7 @@ func (a *Automaton) LALR() (la []map[int]Set, lr1States int) {
 				if by[x] == nil {
 					by[x] = map[Item]Set{}
 				}
-				by[x][Item{it.Rule, it.Dot + 1}] |= l
+				by[x][Item{it.Rule, it.Dot + 1}] = by[x][Item{it.Rule, it.Dot + 1}].Or(l)
 			}
 		}
 		for x, k := range by {
@@ -500,7 +515,7 @@ func (a *Automaton) LALR() (la []map[int]Set, lr1States int) {
 		}
 		for it, l := range st.la {
 			if it.Dot == len(g.Rules[it.Rule].R) {
-				la[ci][it.Rule] |= l
+				la[ci][it.Rule] = la[ci][it.Rule].Or(l)
 			}
 		}
 	}
